@@ -22,12 +22,77 @@ func scenariosC04(rng *rand.Rand, thorough bool) []Scenario {
 	var out []Scenario
 	add := func(sc Scenario) { out = append(out, sc) }
 
+	grow := func(n int) Event { return Event{Kind: "grow", A: n} }
+	reorg := func(d, n int) Event { return Event{Kind: "reorg", A: d, B: n} }
+	sleep := func(ms int) Event { return Event{Kind: "sleep", A: ms} }
+	ann := Event{Kind: "announce"}
+
 	add(Scenario{Name: "honest1", Len: L(), Peers: []Behaviour{honest()}, Script: []Event{sync}})
 	{
 		l := L()
-		add(Scenario{Name: "liarHeaders-pow-first", Len: l, Script: []Event{sync},
+		add(Scenario{Name: "liarHeaders-pow-first", Len: l, Script: []Event{sync, ann, sleep(100)},
 			Peers: []Behaviour{{Kind: "liarHeaders", H: 2 + rng.Intn(l-2), Variant: "pow"}, honest()}})
+		l = L()
+		add(Scenario{Name: "liarHeaders-unlinked-second", Len: l, Script: []Event{sync, ann, sleep(100)},
+			Peers: []Behaviour{honest(), {Kind: "liarHeaders", H: 2 + rng.Intn(l-2), Variant: "unlinked"}}})
 	}
+	{
+		d := 3 + rng.Intn(5)
+		add(Scenario{Name: "lighterFork-first", Len: L(), Script: []Event{sleep(300), grow(1), sync, ann, sleep(100)},
+			Peers: []Behaviour{{Kind: "lighterFork", H: d, N: d - 1 - rng.Intn(2)}, honest()}})
+		d = 3 + rng.Intn(5)
+		add(Scenario{Name: "lighterFork-second", Len: L(), Script: []Event{sync, ann, sleep(100), grow(1)},
+			Peers: []Behaviour{honest(), {Kind: "lighterFork", H: d, N: d - 1}}})
+	}
+	{
+		// both connected before the first header arrives; the liar is the sync peer
+		l := L()
+		add(Scenario{Name: "liarCFHeaders-initial", Len: l, Barrier: true, Script: []Event{sync, grow(1)},
+			Peers: []Behaviour{{Kind: "liarCFHeaders", H: 1 + rng.Intn(l), Variant: "inconsistent"}, honest()}})
+		// the lie is in the filter header of a block mined after the initial sync
+		l = L()
+		add(Scenario{Name: "liarCFHeaders-tip", Len: l, Script: []Event{sync, grow(2), sync, grow(1)},
+			Peers: []Behaviour{honest(), {Kind: "liarCFHeaders", H: l + 1 + rng.Intn(2), Variant: "inconsistent"}}})
+		// the liar is the only peer while the first filter headers are fetched; the honest peer connects right after
+		l = L()
+		add(Scenario{Name: "liarCFHeaders-alone", Len: l, HoldCF: true, Deadline: 3 * time.Second, Script: []Event{sleep(400), grow(1)},
+			Peers: []Behaviour{{Kind: "liarCFHeaders", H: 1 + rng.Intn(l), Variant: "inconsistent"}, honest()}})
+	}
+	add(Scenario{Name: "noServices-cf-first", Len: L(), Script: []Event{sync},
+		Peers: []Behaviour{{Kind: "noServices", Variant: "cf"}, honest()}})
+	add(Scenario{Name: "noServices-witness-second", Len: L(), Script: []Event{sync, grow(1)},
+		Peers: []Behaviour{honest(), {Kind: "noServices", Variant: "witness"}}})
+	add(Scenario{Name: "garbage-first", Len: L(), Script: []Event{sync, grow(2)},
+		Peers: []Behaviour{{Kind: "garbage"}, honest()}})
+	add(Scenario{Name: "disconnect-first", Len: L(), Script: []Event{sync, grow(1)},
+		Peers: []Behaviour{{Kind: "disconnectAt", H: 1 + rng.Intn(3)}, honest()}})
+	add(Scenario{Name: "growth", Len: L(), Script: []Event{sync, grow(1), sync, grow(3), sync, grow(1)},
+		Peers: []Behaviour{honest()}})
+	{
+		d := 1 + rng.Intn(3)
+		add(Scenario{Name: "reorg", Len: L(), Script: []Event{sync, reorg(d, d+1+rng.Intn(2)), sync, grow(1)},
+			Peers: []Behaviour{honest()}})
+	}
+	add(Scenario{Name: "honest2", Len: L(), Script: []Event{sync, grow(2), sync, reorg(1, 2)},
+		Peers: []Behaviour{honest(), honest()}})
+	{
+		l := L()
+		h := 1 + rng.Intn(l)
+		add(Scenario{Name: "liarCFilter", Len: l, Script: []Event{sync, {Kind: "cfilter", A: h}},
+			Peers: []Behaviour{{Kind: "liarCFilter", H: h}, honest()}})
+	}
+	{
+		l := L()
+		add(Scenario{Name: "liarCFHeaders-consistent", Len: l, Barrier: true, Script: []Event{sync, grow(1)},
+			Peers: []Behaviour{honest(), {Kind: "liarCFHeaders", H: 2 + rng.Intn(l-1), Variant: "consistent"}}})
+	}
+	add(Scenario{Name: "silent-second", Len: L(), Script: []Event{sync, grow(1), sync, grow(1)},
+		Peers: []Behaviour{honest(), {Kind: "silent"}}})
+	add(Scenario{Name: "liarCFCheckpt-consistent", Len: 1000 + L(), Barrier: true, Script: []Event{sync, grow(1)},
+		Peers: []Behaviour{honest(), {Kind: "liarCFCheckpt", H: 0, Variant: "consistent"}}})
+	// false checkpoint, true filter headers: the client can tell nobody apart and never gets past it
+	add(Scenario{Name: "liarCFCheckpt-only", Len: 1000 + L(), Barrier: true, Deadline: 4 * time.Second, Script: []Event{sleep(300)},
+		Peers: []Behaviour{honest(), {Kind: "liarCFCheckpt", H: 0, Variant: "only"}}})
 	return out
 }
 
